@@ -229,6 +229,19 @@ def F29():
     return np.allclose(out[0], raw), "restore(prepare(.)) round trip with the first channel skipped"
 
 
+def F34():
+    r = np.random.default_rng(0)
+    X = cc(r.random((20, 2)))
+    d = DualVigilanceART(FuzzyART(0.8, 0.01, 1.0), 0.5)
+    with quiet():
+        d.fit(X)
+        d.fit(X[:5])
+    cnt = [int(t) for t in d.base_module.weight_sample_counter_]
+    own = [int(t) for t in d.weight_sample_counter_]
+    return (len(cnt) == len(d.W) and sum(cnt) == 5 and own == cnt,
+            f"after a second fit on 5 rows: {len(d.W)} categories, base-module counters {cnt}, wrapper counters {own}")
+
+
 ALL = {k: v for k, v in list(globals().items()) if k[0] == "F" and k[1:3].isdigit()}
 
 if __name__ == "__main__":
